@@ -477,6 +477,22 @@ func (p *Path) deepEq(a, b Value, depth int) *Term {
 		if !ok {
 			return tFalse
 		}
+		// two opaque encodings: equal exactly when what they encode is (integers; nested messages)
+		if x.O != nil && y.O != nil && x.Off == 0 && y.Off == 0 && x.Len > 0 && y.Len > 0 && x.Len == len(p.backing(x.O).E) && y.Len == len(p.backing(y.O).E) {
+			if xa, ok := p.bigBlobs[x.O]; ok {
+				if xb, ok := p.bigBlobs[y.O]; ok {
+					return tb.Eq(xa, xb)
+				}
+			}
+			if pa, ok := p.protoBlobs[x.O]; ok {
+				if pb, ok := p.protoBlobs[y.O]; ok {
+					if !types.Identical(pa.typ, pb.typ) {
+						return tFalse
+					}
+					return p.deepEq(pa.snap, pb.snap, depth+1)
+				}
+			}
+		}
 		// nil and empty are distinguished like reflect.DeepEqual
 		if x.IsNil() != y.IsNil() || x.Len != y.Len {
 			return tFalse
